@@ -79,6 +79,44 @@ def write_replay(prop: str, entries: List[dict]) -> str:
     return p
 
 
+def bite_tests(prop: str) -> dict:
+    """Thorough tier: do the contracts still bite?  Every stored property-breaking change of this property
+    (seeded/<prop>/m*/patch.diff) is applied to a scratch copy of /repo's src under .cache (never to /repo) and the quick
+    check is run on the copy.  Recorded in the evidence; never changes the exit code of the check of the real tree."""
+    import glob, shutil, subprocess
+    out = {"changes": [], "flagged": 0, "undecided": 0, "missed": 0}
+    for d in sorted(glob.glob(os.path.join(ROOT, "seeded", prop, "m*"))):
+        patch = os.path.join(d, "patch.diff")
+        if not os.path.isfile(patch):
+            continue
+        work = os.path.join(CACHE, "bite", prop, os.path.basename(d))
+        shutil.rmtree(work, ignore_errors=True)
+        os.makedirs(work)
+        shutil.copytree(os.path.join(REPO, "src"), os.path.join(work, "src"))
+        shutil.copy(os.path.join(REPO, "Cargo.lock"), os.path.join(work, "Cargo.lock"))
+        ap = subprocess.run(["patch", "-p1", "-s", "-i", patch], cwd=work, capture_output=True, text=True)
+        row = {"change": "%s/%s" % (prop, os.path.basename(d))}
+        if ap.returncode != 0:
+            row["outcome"] = "patch does not apply to the current tree"
+        else:
+            env = dict(os.environ, VERIF_REPO=work, VERIF_BITE_RUN="1", VERIF_TIER="quick")
+            r = subprocess.run([os.path.join(ROOT, "check"), prop, "--tier", "quick"], capture_output=True, text=True, env=env)
+            m = re.search(r"failed obligation: (\S+)", r.stdout)
+            if r.returncode == 1:
+                row["outcome"] = "flagged"
+                row["obligation"] = m.group(1) if m else None
+                out["flagged"] += 1
+            elif r.returncode == 2:
+                row["outcome"] = "undecided"
+                out["undecided"] += 1
+            else:
+                row["outcome"] = "missed"
+                out["missed"] += 1
+        out["changes"].append(row)
+        shutil.rmtree(work, ignore_errors=True)
+    return out
+
+
 def check_property(prop: str, tier: str, seed: int) -> int:
     t0 = time.time()
     cfg = registry.PROPS.get(prop)
@@ -86,9 +124,9 @@ def check_property(prop: str, tier: str, seed: int) -> int:
         print("unknown or unclaimed property %s" % prop)
         return 2
     os.makedirs(CACHE, exist_ok=True)
-    lock = open(os.path.join(CACHE, "lock.%s" % prop), "w")
+    lock = open(os.path.join(CACHE, "lock.%s%s" % (prop, ".bite" if os.environ.get("VERIF_BITE_RUN") else "")), "w")
     fcntl.flock(lock, fcntl.LOCK_EX)
-    gen = os.path.join(CACHE, "gen", prop)
+    gen = os.path.join(CACHE, "gen-bite" if os.environ.get("VERIF_BITE_RUN") else "gen", prop)
     os.makedirs(gen, exist_ok=True)
     known = load_known_findings()
 
@@ -301,6 +339,10 @@ def check_property(prop: str, tier: str, seed: int) -> int:
         "wall_s": round(wall, 2),
         "violations": len(violations),
     }
+    if tier == "thorough" and not os.environ.get("VERIF_BITE_RUN"):
+        ev["coverage"]["contract_bite_tests"] = bite_tests(prop)
+    if os.environ.get("VERIF_BITE_RUN"):
+        return rc
     os.makedirs(os.path.join(ROOT, "evidence"), exist_ok=True)
     with open(os.path.join(ROOT, "evidence", "%s.json" % prop), "w", encoding="utf-8") as f:
         json.dump(ev, f, indent=1)
